@@ -293,3 +293,21 @@ Proof.
   rewrite E2, E3. reflexivity.
 Qed.
 Print Assumptions req_str_deterministic.
+
+(* ------------------------------------------------------------------ composition with the marker domain (C09) -------------- *)
+(* the round-trip clause of C09, for whatever the marker grammar returns (statement only; proved in the marker domain as
+   MkRoundP.parsed_marker_roundtrip) *)
+Definition rq_c09_roundtrip : Prop :=
+  forall fuel s m0 s', p_marker fuel s = Some (m0, s') -> lit_class m0 = LOk ->
+  exists m', MText.parse_marker (format_marker (norm_l m0)) = Some m' /\ lit_class m' = LOk /\
+             format_marker (norm_l m') = format_marker (norm_l m0).
+Theorem str_roundtrip_given_c09 : rq_c09_roundtrip ->
+  forall src r, Requirement src = RqOk r -> rq_no_gap r ->
+  exists r', Requirement (req_str r) = RqOk r' /\ req_eq r r' = true /\ req_str r' = req_str r.
+Proof.
+  intros C09 src r H G. apply (str_roundtrip src r H G).
+  destruct (q_marker r) as [m|] eqn:M; [|exact I].
+  destruct (Requirement_marker_origin src r m H M) as (m0 & (fuel & s & s' & P) & L & ->).
+  exact (C09 fuel s m0 s' P L).
+Qed.
+Print Assumptions str_roundtrip_given_c09.
